@@ -36,7 +36,7 @@ def hexDigit (n : Nat) : Char :=
 
 def showFloatBits (f : Float) : String :=
   let n := f.toBits.toNat
-  "x" ++ String.mk ((List.range 16).map (fun i => hexDigit ((n / 16 ^ (15 - i)) % 16)))
+  "x" ++ String.ofList ((List.range 16).map (fun i => hexDigit ((n / 16 ^ (15 - i)) % 16)))
 
 def parseList? {α} (p : String → Option α) (s : String) : Option (List α) :=
   if s = "" ∨ s = "-" then some [] else (s.splitOn ",").mapM p
